@@ -80,6 +80,15 @@ Theorem C08_join_always_returns : forall k env d rs, last_invalid d = false ->
 Proof. exact join_total. Qed.
 Print Assumptions C08_join_always_returns.
 
+(* JoinTo on a StringBuilder over a slice of RedactableString / RedactableBytes / interface{}
+   elements holding either, mixed: the concatenation with the delimiter *)
+Theorem C08_jointo_is_concatenation : forall k env d tn tl es o, last_invalid d = false ->
+  let vs := map (fun e => match e with VIface _ (Some x) => x | VIface _ None => VNil | x => x end) es in
+  Forall redv_ok vs ->
+  builder (S (S k)) env (jointo_acts d (VSlice tn tl es)) = ROk o -> o_bytes o = intercalate d (map payload vs).
+Proof. exact jointo_is_concatenation. Qed.
+Print Assumptions C08_jointo_is_concatenation.
+
 (* the joined text is again a well-formed, line-safe redactable; Redact and StripMarkers of it
    are the joins of the redacted / stripped parts *)
 Theorem C08_join_closed_and_distributes : forall d rs,
